@@ -359,3 +359,162 @@ pub fn tabular_one(u: &mut Unstructured) {
         finish("C13", "C13/raw-bytes", &c, v);
     }
 }
+
+// ---------------------------------------------------------------------------
+// histories target: operation sequences on containers / trees / graphs (C07, C16, C18). The input bytes
+// are the history itself (one or a few bytes per operation), so that libFuzzer's mutations - insert,
+// delete, duplicate, splice a run of bytes - are insertions, deletions and repetitions of operations.
+
+fn c07_case(u: &mut Unstructured) -> AResult<crate::props::c07::Case> {
+    use crate::props::c07::{Case, KeyT, Op};
+    let (key, offset) = match u.int_in_range(0..=7)? {
+        0..=2 => (KeyT::I64, 0i64),
+        3 => (KeyT::U8, 0),
+        4 => (KeyT::I64, -100),
+        5 => (KeyT::I64, 1i64 << 40),
+        6 => (KeyT::I64, i64::MIN),
+        _ => (KeyT::I64, i64::MAX - 255),
+    };
+    // geometry as in the proptest strategy: start + width never exceeds 255 (u8 keys, offset i64::MAX-255)
+    let r: u16 = *u.choose(&[5u16, 25, 200])?;
+    let w: u16 = *u.choose(&[1u16, 3, 12, 55])?;
+    let nref: u8 = u.int_in_range(1..=3)?;
+    let mut ops = Vec::new();
+    while !u.is_empty() && ops.len() < 160 {
+        ops.push(match u.int_in_range(0..=9)? {
+            0..=4 => Op::Insert { start: u.int_in_range(0..=r)?, width: u.int_in_range(1..=w)?, data: u.arbitrary()?, refid: u.int_in_range(0..=nref - 1)? },
+            5..=8 => Op::Find { start: u.int_in_range(0..=(r + 3).min(200))?, width: u.int_in_range(1..=w.max(2))?, refid: u.int_in_range(0..=nref.min(3))?, index_first: u.ratio(4, 5)? },
+            _ => Op::Index,
+        });
+    }
+    Ok(Case { key, offset, ops })
+}
+
+fn c16_case(u: &mut Unstructured) -> AResult<crate::props::c16::history::Case> {
+    use crate::props::c16::history::{Case, Step};
+    use crate::props::c16::Score;
+    let sigma: u8 = u.int_in_range(1..=3)?;
+    let n = sigma as usize;
+    let score = match u.int_in_range(0..=4)? {
+        0..=1 => Score::Simple { m: u.int_in_range(0..=3)?, x: -u.int_in_range(0..=3)? },
+        2 => Score::Simple { m: u.int_in_range(1..=3)?, x: -u.int_in_range(0..=3)? },
+        3 => {
+            // arbitrary (possibly asymmetric) table
+            let mut t = Vec::with_capacity(n * n);
+            for _ in 0..n * n {
+                t.push(u.int_in_range(-3..=3)?);
+            }
+            Score::Table { sigma, t }
+        }
+        _ => {
+            // symmetric, positive diagonal, non-positive elsewhere (identity is the unique optimum)
+            let mut t = vec![0i32; n * n];
+            for i in 0..n {
+                for j in i..n {
+                    let v = if i == j { u.int_in_range(1..=3)? } else { -u.int_in_range(0..=3)? };
+                    t[i * n + j] = v;
+                    t[j * n + i] = v;
+                }
+            }
+            Score::Table { sigma, t }
+        }
+    };
+    let gap = -u.int_in_range(0..=3)?;
+    let gap_extend = -u.int_in_range(0..=5)?;
+    let mut reference = seq(u, sigma, 14)?;
+    if reference.is_empty() {
+        reference.push(b'a');
+    }
+    let ns = u.int_in_range(0..=5)?;
+    let mut steps = Vec::new();
+    for _ in 0..ns {
+        let mut q = match u.int_in_range(0..=3)? {
+            0 => reference.clone(),
+            1 => seq(u, sigma, 14)?,
+            _ => {
+                let mut y = reference.clone();
+                for _ in 0..u.int_in_range(1..=4)? {
+                    let c = b'a' + u.int_in_range(0..=sigma - 1)?;
+                    match u.int_in_range(0..=2)? {
+                        0 if !y.is_empty() => {
+                            let i = u.int_in_range(0..=y.len() - 1)?;
+                            y[i] = c;
+                        }
+                        1 => {
+                            let i = u.int_in_range(0..=y.len())?;
+                            y.insert(i, c);
+                        }
+                        _ if !y.is_empty() => {
+                            let i = u.int_in_range(0..=y.len() - 1)?;
+                            y.remove(i);
+                        }
+                        _ => {}
+                    }
+                }
+                y
+            }
+        };
+        if q.is_empty() {
+            q.push(b'a');
+        }
+        let banded = if u.ratio(3, 10)? { Some(u.int_in_range(0..=3usize)?) } else { None };
+        let mut prelude = Vec::new();
+        if u.ratio(1, 4)? {
+            for _ in 0..u.int_in_range(1..=2)? {
+                prelude.push(u.int_in_range(0..=3u8)?);
+            }
+        }
+        steps.push(Step { query: B(q), banded, prelude });
+    }
+    Ok(Case { reference: B(reference), score, gap, gap_extend, steps })
+}
+
+fn c18_case(u: &mut Unstructured) -> AResult<crate::props::c18::bitenc::Case> {
+    use crate::props::c18::bitenc::{Case, Op};
+    let width: u8 = u.int_in_range(1..=8)?;
+    let mut ops = Vec::new();
+    while !u.is_empty() && ops.len() < 60 {
+        ops.push(match u.int_in_range(0..=11)? {
+            0..=3 => Op::Push(u.arbitrary()?),
+            4..=6 => Op::PushValues(u.int_in_range(0..=70)?, u.arbitrary()?),
+            7..=8 => Op::Set(u.arbitrary()?, u.arbitrary()?),
+            9 => Op::Get(if u.ratio(1, 4)? { u.arbitrary()? } else { u.int_in_range(0..=200u64)? }),
+            10 => Op::Iter,
+            _ => Op::Clear,
+        });
+    }
+    Ok(Case { width, ops })
+}
+
+/// one libFuzzer input for the histories target: C07 (interval trees + annotation maps), C16 (POA graph
+/// growth) or C18 (BitEnc)
+pub fn histories_one(u: &mut Unstructured) {
+    init();
+    use crate::props::{c07, c16, c18};
+    let which = match only() {
+        Some("C07") => 0,
+        Some("C16") => 1,
+        Some("C18") => 2,
+        _ => u.int_in_range(0..=2).unwrap_or(0),
+    };
+    match which {
+        0 => {
+            if let Ok(c) = c07_case(u) {
+                let v = guarded(c07::check, &c);
+                finish("C07", "C07/history", &c, v);
+            }
+        }
+        1 => {
+            if let Ok(c) = c16_case(u) {
+                let v = guarded(c16::history::check, &c);
+                finish("C16", "C16/history", &c, v);
+            }
+        }
+        _ => {
+            if let Ok(c) = c18_case(u) {
+                let v = guarded(c18::bitenc::check, &c);
+                finish("C18", "C18/bitenc", &c, v);
+            }
+        }
+    }
+}
